@@ -402,9 +402,18 @@ func init() {
 	add("C09", "ERR-NILRET")
 	add("C12", "ERR-NILRET")
 	add("C19", "ERR-NILRET")
+	add("C20", "ERR-NILRET")
 	registerRule(&RuleDef{ID: "DEFER-ARM", Min: 1, Doc: "every monitor request is sent with the deferral of notifications armed", Run: ruleDEFERARM})
 	add("C01", "DEFER-ARM")
 	add("C16", "DEFER-ARM")
+	registerRule(&RuleDef{ID: "V-RECV-PATH", Min: 1, Doc: "the event processor cannot return between taking an event from the channel and the next turn of its loop", Run: ruleVRECVPATH})
+	add("C14", "V-RECV-PATH")
+	registerRule(&RuleDef{ID: "M-STORE", Min: 1, Doc: "a column value the mapper converted is stored into the model on every path that does not fail", Run: ruleMSTORE})
+	add("C09", "M-STORE")
+	registerRule(&RuleDef{ID: "R-STARTLAST", Min: 1, Doc: "connect starts its handler goroutines only after the last step that can fail", Run: ruleRSTARTLAST})
+	add("C14", "R-STARTLAST")
+	add("C16", "R-STARTLAST", "L1")
+	add("C17", "X1")
 	add("C01", "ERR-LOOP")
 	add("C03", "X1", "MAX-ONE")
 	add("C04", "MAX-ONE")
